@@ -637,7 +637,7 @@ mod verif_nat {
     macro_rules! add_inline_h {
         ($($name:ident: $ea:expr, $eb:expr;)*) => {$(
             #[kani::proof]
-            #[kani::unwind(5)]
+            #[kani::unwind(3)]
             #[kani::stub(std::vec::Vec::with_capacity, with_capacity_split)]
             fn $name() { check_add_inline($ea, $eb) }
         )*};
@@ -668,19 +668,19 @@ mod verif_nat {
         assert!(r.is_nan());
     }
     #[kani::proof]
-    #[kani::unwind(5)]
+    #[kani::unwind(3)]
     #[kani::stub(std::vec::Vec::with_capacity, with_capacity_split)]
     fn add_nan_inline_e0() {
         check_add_nan_inline(0)
     }
     #[kani::proof]
-    #[kani::unwind(5)]
+    #[kani::unwind(3)]
     #[kani::stub(std::vec::Vec::with_capacity, with_capacity_split)]
     fn add_nan_inline_e7() {
         check_add_nan_inline(7)
     }
     #[kani::proof]
-    #[kani::unwind(5)]
+    #[kani::unwind(3)]
     #[kani::stub(std::vec::Vec::with_capacity, with_capacity_split)]
     fn add_nan_inline_nan() {
         check_add_nan_inline(u64::MAX)
@@ -688,20 +688,16 @@ mod verif_nat {
 
     // ---- concrete boundary table (carry chains), operands built through the public constructors
     const M64: u64 = u64::MAX;
-    /// little-endian digit triples; every value is used with the exponents in TABLE_E
-    const TABLE_D: [[u64; 3]; 12] = [
-        [1, 0, 0],                 // 1
-        [M64, 0, 0],               // 2^64 - 1
-        [0, 1, 0],                 // 2^64
-        [1, 1, 0],                 // 2^64 + 1
-        [M64, M64, 0],             // 2^128 - 1
-        [0, 0, 1],                 // 2^128
-        [1, 0, 1],                 // 2^128 + 1
-        [M64, M64, M64],           // 2^192 - 1
-        [M64 - 1, M64, M64],       // 2^192 - 2
-        [1 << 63, 0, 0],           // 2^63
-        [1, 1 << 63, 0],           // 2^127 + 1
-        [M64, 0, 1 << 63],         // 2^191 + 2^64 - 1
+    /// little-endian digit triples
+    const TABLE_D: [[u64; 3]; 8] = [
+        [1, 0, 0],           // 1
+        [M64, 0, 0],         // 2^64 - 1
+        [1, 1, 0],           // 2^64 + 1
+        [M64, M64, 0],       // 2^128 - 1
+        [1, 0, 1],           // 2^128 + 1
+        [M64, M64, M64],     // 2^192 - 1
+        [1, 1 << 63, 0],     // 2^127 + 1
+        [M64, 0, 1 << 63],   // 2^191 + 2^64 - 1
     ];
     fn table_nat(i: usize, e: u64) -> (Natural, W) {
         let d = TABLE_D[i];
@@ -709,57 +705,77 @@ mod verif_nat {
         let v = w_shl(w_limbs([d[0], d[1], d[2], 0]), e).unwrap();
         (n, v)
     }
-    /// all ordered pairs (i, j) of the table, first operand shifted by `ea`, second by `eb`
-    fn check_add_table(ea: u64, eb: u64) {
-        let mut i = 0;
-        while i < TABLE_D.len() {
-            let mut j = 0;
-            while j < TABLE_D.len() {
-                let (a, va) = table_nat(i, ea);
-                let (b, vb) = table_nat(j, eb);
-                assert!(wf(&a) && wf(&b));
-                assert!(val_rel(&abs(&a), 0) == Some(va) && val_rel(&abs(&b), 0) == Some(vb));
-                let r = a + b;
-                check_sum(&r, va, vb, 0);
-                j += 1;
-            }
-            i += 1;
+    /// TABLE_D[i] * 2^ea + TABLE_D[j] * 2^eb for every j (all operands concrete): wf result, exact value,
+    /// no memory-safety violation, no failing debug assertion
+    fn check_add_table_row(i: usize, ea: u64, eb: u64) {
+        let mut j = 0;
+        while j < TABLE_D.len() {
+            let (a, va) = table_nat(i, ea);
+            let (b, vb) = table_nat(j, eb);
+            assert!(wf(&a) && wf(&b));
+            assert!(val_rel(&abs(&a), 0) == Some(va) && val_rel(&abs(&b), 0) == Some(vb));
+            let r = a + b;
+            check_sum(&r, va, vb, 0);
+            j += 1;
         }
     }
-    #[kani::proof]
-    #[kani::unwind(14)]
-    fn add_table_e0_e0() {
-        check_add_table(0, 0)
+    macro_rules! add_table_h {
+        ($($name:ident: $i:expr, $ea:expr, $eb:expr;)*) => {$(
+            #[kani::proof]
+            #[kani::unwind(10)]
+            fn $name() { check_add_table_row($i, $ea, $eb) }
+        )*};
     }
-    #[kani::proof]
-    #[kani::unwind(14)]
-    fn add_table_e0_e1() {
-        check_add_table(0, 1)
+    add_table_h! {
+        add_table_r0_e0_e0: 0, 0, 0; add_table_r1_e0_e0: 1, 0, 0; add_table_r2_e0_e0: 2, 0, 0; add_table_r3_e0_e0: 3, 0, 0;
+        add_table_r4_e0_e0: 4, 0, 0; add_table_r5_e0_e0: 5, 0, 0; add_table_r6_e0_e0: 6, 0, 0; add_table_r7_e0_e0: 7, 0, 0;
+        add_table_r0_e1_e0: 0, 1, 0; add_table_r1_e1_e0: 1, 1, 0; add_table_r2_e1_e0: 2, 1, 0; add_table_r3_e1_e0: 3, 1, 0;
+        add_table_r4_e1_e0: 4, 1, 0; add_table_r5_e1_e0: 5, 1, 0; add_table_r6_e1_e0: 6, 1, 0; add_table_r7_e1_e0: 7, 1, 0;
+        add_table_r0_e0_e63: 0, 0, 63; add_table_r1_e0_e63: 1, 0, 63; add_table_r2_e0_e63: 2, 0, 63; add_table_r3_e0_e63: 3, 0, 63;
+        add_table_r4_e0_e63: 4, 0, 63; add_table_r5_e0_e63: 5, 0, 63; add_table_r6_e0_e63: 6, 0, 63; add_table_r7_e0_e63: 7, 0, 63;
     }
-    #[kani::proof]
-    #[kani::unwind(14)]
-    fn add_table_e1_e0() {
-        check_add_table(1, 0)
+
+    // ---- 3-digit heap operands with a SYMBOLIC MIDDLE digit, concrete low/top digits and exponents:
+    // bit widths, trailing zeros and therefore all allocation sizes are concrete, the carry chain
+    // through the middle digit is symbolic (2 x 64 symbolic bits)
+    fn mid_nat(lo: u64, hi: u64, shl: u64) -> Natural {
+        let d: [u64; 3] = [lo, kani::any(), hi];
+        let b: Box<[u64]> = Box::new(d);
+        let ptr = NonNull::new(Box::into_raw(b).cast::<u64>()).unwrap();
+        let n = Natural { ptr, len: 3, shl };
+        assert!(wf(&n));
+        n
     }
-    #[kani::proof]
-    #[kani::unwind(14)]
-    fn add_table_e0_e63() {
-        check_add_table(0, 63)
+    fn check_add_mid(alo: u64, ahi: u64, ea: u64, blo: u64, bhi: u64, eb: u64) {
+        let a = mid_nat(alo, ahi, ea);
+        let b = mid_nat(blo, bhi, eb);
+        let (va, vb) = (val_rel(&abs(&a), 0).unwrap(), val_rel(&abs(&b), 0).unwrap());
+        kani::cover!(abs(&a).m[1] == u64::MAX && abs(&b).m[1] == 1);
+        let r = a + b;
+        check_sum(&r, va, vb, 0);
     }
-    #[kani::proof]
-    #[kani::unwind(14)]
-    fn add_table_e0_e60() {
-        check_add_table(0, 60)
+    macro_rules! add_mid_h {
+        ($($name:ident: $alo:expr, $ahi:expr, $ea:expr, $blo:expr, $bhi:expr, $eb:expr;)*) => {$(
+            #[kani::proof]
+            #[kani::unwind(6)]
+            #[kani::stub(std::vec::Vec::with_capacity, with_capacity_split)]
+            fn $name() { check_add_mid($alo, $ahi, $ea, $blo, $bhi, $eb) }
+        )*};
     }
-    #[kani::proof]
-    #[kani::unwind(14)]
-    fn add_table_e62_e2() {
-        check_add_table(62, 2)
+    add_mid_h! {
+        // equal exponents: low digits cancel to 0 (carry into the symbolic digit), top digits carry out
+        add_mid_eq_cancel: M64, M64, 0, 1, M64, 0;
+        // equal exponents: low sum has 3 trailing zeros, no top carry
+        add_mid_eq_shr3: 5, 1, 0, 3, 1, 0;
+        // different exponents, in-place candidate (same length)
+        add_mid_gap3: 1, 1 << 62, 0, 1, 1, 3;
+        // different exponents, result longer than both operands
+        add_mid_gap70: M64, M64, 0, M64, M64, 70;
     }
 
     // ================================================================== vacuity self-tests (must be refuted)
     #[kani::proof]
-    #[kani::unwind(5)]
+    #[kani::unwind(3)]
     #[kani::stub(std::vec::Vec::with_capacity, with_capacity_split)]
     fn selftest_add_off_by_one() {
         let a = inline_nat(0);
